@@ -4,13 +4,20 @@ use crate::fw::{Cfg, Phase};
 
 pub mod c02;
 pub mod c03;
+pub mod c05;
+pub mod c08;
 pub mod c10;
+pub mod c11;
 pub mod c13;
+pub mod exec;
 pub mod synt;
 
 pub fn build(cfg: &Cfg) -> (Vec<Box<dyn Phase>>, Result<String, String>) {
     match cfg.property.as_str() {
         "C02" => (c02::phases(cfg), c02::selfcheck()),
+        "C05" => (c05::phases(cfg), c05::selfcheck()),
+        "C08" => (c08::phases(cfg), c08::selfcheck()),
+        "C11" => (c11::phases(cfg), c11::selfcheck()),
         "C13" => (c13::phases(cfg), c13::selfcheck()),
         "C03" => (c03::phases(cfg), c03::selfcheck()),
         "C10" => (c10::phases(cfg), c10::selfcheck()),
